@@ -5,3 +5,19 @@ pub mod distro;
 pub mod sync;
 pub mod clock;
 pub mod naming;
+
+/// Rollover limit override for FRESH raft log files (0 = no override).
+/// `LogIndexHeaderDo::data_area_index` is only used by the "file full" test
+/// `index_cursor + 10 >= data_area_index`; record data still starts at 4096.
+pub static LOG_DATA_AREA_INDEX: std::sync::atomic::AtomicU16 =
+    std::sync::atomic::AtomicU16::new(0);
+
+pub fn patch_log_header(
+    mut header: crate::raft::filestore::model::LogIndexHeaderDo,
+) -> crate::raft::filestore::model::LogIndexHeaderDo {
+    let v = LOG_DATA_AREA_INDEX.load(std::sync::atomic::Ordering::SeqCst);
+    if v != 0 {
+        header.data_area_index = v;
+    }
+    header
+}
